@@ -156,18 +156,26 @@ theorem zipFlat_length {β γ : Type} (g : β → Nat → γ) (L : List (List β
       simp only [List.zip_cons_cons, List.map_cons, List.flatten_cons, List.length_append,
         List.length_map, List.sum_cons, this]
 
+/-- a position inside block `k` exists only when block `k` exists -/
+theorem lt_length_of_lt_getD_length {β : Type} (L : List (List β)) (k i : Nat)
+    (hi : i < (L.getD k []).length) : k < L.length := by
+  rcases Nat.lt_or_ge k L.length with h | h
+  · exact h
+  · rw [List.getD_eq_getElem?_getD, List.getElem?_eq_none h] at hi; simp at hi
+
 theorem channelProbes_eq (maps : List (List Nat)) :
     channelProbes maps =
       ((maps.zip (List.range' 0 maps.length)).map fun p => p.1.map fun _ => p.2).flatten := by
   rw [channelProbes, List.zipIdx_eq_zip_range']
 
-theorem channels_block (maps : List (List Nat)) (h : MapsOK maps) (k i : Nat) (hk : k < maps.length)
+theorem channels_block (maps : List (List Nat)) (h : MapsOK maps) (k i : Nat)
     (hi : i < (maps.getD k []).length) :
     (mergeChannelMaps maps).getD (prefixSum (maps.map List.length) k + i) 0 =
         (maps.getD k []).getD i 0 + prefixSum (maps.map List.length) k ∧
     (channelProbes maps).getD (prefixSum (maps.map List.length) k + i) maps.length = k ∧
     (mergeChannelMaps maps).length = (maps.map List.length).sum ∧
     (channelProbes maps).length = (maps.map List.length).sum := by
+  have hk : k < maps.length := lt_length_of_lt_getD_length maps k i hi
   have hlen : (chanOffsets maps).length = maps.length := chanOffsetsFrom_length maps 0
   have hlenr : (List.range' 0 maps.length).length = maps.length := by simp
   refine ⟨?_, ?_, ?_, ?_⟩
@@ -208,9 +216,7 @@ theorem positions_translated_from (pos : List (List (Int × Int))) :
       obtain ⟨dx, hdx⟩ := ih (nextOff xoff p) k
       exact ⟨dx, by simpa [shiftPositionsFrom_cons] using hdx⟩
 
--- `hk` is not needed for the proof (out-of-range `getD` yields `[]`/`0`)
-set_option linter.unusedVariables false in
-theorem positions_translated (pos : List (List (Int × Int))) (k : Nat) (hk : k < pos.length) :
+theorem positions_translated (pos : List (List (Int × Int))) (k : Nat) :
     ∃ dx : Int, (shiftPositionsFrom 0 pos).getD k [] = (pos.getD k []).map fun xy => (xy.1 + dx, xy.2) :=
   positions_translated_from pos 0 k
 
@@ -296,10 +302,7 @@ theorem positions_apart_from (pos : List (List (Int × Int))) :
         rw [List.getD_cons_succ] at ha
         exact ih (nextOff xoff p) k l hrest (by omega) a ha b hb
 
--- `hl` is not needed for the proof (out-of-range `getD` yields `[]`/`0`)
-set_option linter.unusedVariables false in
-theorem positions_apart (pos : List (List (Int × Int))) (h : PosOK pos) (k l : Nat) (hkl : k < l)
-    (hl : l < pos.length) :
+theorem positions_apart (pos : List (List (Int × Int))) (h : PosOK pos) (k l : Nat) (hkl : k < l) :
     ∀ a ∈ (shiftPositionsFrom 0 pos).getD k [], ∀ b ∈ (shiftPositionsFrom 0 pos).getD l [], a.1 < b.1 :=
   positions_apart_from pos 0 k l h hkl
 
@@ -339,8 +342,15 @@ theorem tmplWidth_of_ok (t : List (List (List α))) (ns nc : Nat) (h : TmplOK t 
     | nil => simp at hl; omega
     | cons row tm => simpa using hrow row (by simp)
 
+theorem prefixSum_succ_tail (ncs : List Nat) (k : Nat) :
+    prefixSum ncs (k + 1) = ncs.getD 0 0 + prefixSum ncs.tail k := by
+  cases ncs <;> simp [prefixSum]
+
+theorem getD_succ_tail (ncs : List Nat) (k : Nat) : ncs.getD (k + 1) 0 = ncs.tail.getD k 0 := by
+  cases ncs <;> simp
+
 theorem mergeTemplatesFrom_getD (total ns : Nat) (hns : 0 < ns) (ts : List (List (List (List α)))) :
-    ∀ (ncs : List Nat) (j0 k t : Nat), ncs.length = ts.length →
+    ∀ (ncs : List Nat) (j0 k t : Nat),
       (∀ k, k < ts.length → TmplOK (ts.getD k []) ns (ncs.getD k 0)) →
       k < ts.length → t < (ts.getD k []).length →
       (mergeTemplatesFrom total j0 ts).getD (prefixSum (ts.map List.length) k + t) [] =
@@ -348,46 +358,61 @@ theorem mergeTemplatesFrom_getD (total ns : Nat) (hns : 0 < ns) (ts : List (List
           List.replicate (j0 + prefixSum ncs k) (0 : α) ++ row ++
             List.replicate (total - (j0 + prefixSum ncs k) - ncs.getD k 0) 0 := by
   induction ts with
-  | nil => intro ncs j0 k t _ _ hk; simp at hk
+  | nil => intro ncs j0 k t _ hk; simp at hk
   | cons t0 rest ih =>
-    intro ncs j0 k t hlen hok hk ht
-    cases ncs with
-    | nil => simp at hlen
-    | cons nc0 ncs =>
-      have hlen' : ncs.length = rest.length := by simpa using hlen
-      have h0 : TmplOK t0 ns nc0 := by simpa using hok 0 (by simp)
-      have hw := tmplWidth_of_ok t0 ns nc0 h0 hns
-      rw [mergeTemplatesFrom]
-      simp only [hw]
-      cases k with
-      | zero =>
-        have ht' : t < t0.length := by simpa using ht
-        rw [List.getD_eq_getElem?_getD, List.getD_eq_getElem?_getD]
-        simp only [List.map_cons, prefixSum_zero, Nat.zero_add, List.getD_cons_zero, Nat.add_zero]
-        rw [List.getElem?_append_left (by simpa using ht'), List.getElem?_map,
-          List.getElem?_eq_getElem ht']
-        simp [ht']
-      | succ k =>
-        have hk' : k < rest.length := by simpa using hk
-        have ht' : t < (rest.getD k []).length := by simpa using ht
-        have hok' : ∀ k, k < rest.length → TmplOK (rest.getD k []) ns (ncs.getD k 0) := by
-          intro k hk
-          simpa using hok (k + 1) (by simp; omega)
-        have := ih ncs (j0 + nc0) k t hlen' hok' hk' ht'
-        simp only [List.map_cons, prefixSum_cons_succ, List.getD_cons_succ]
-        rw [List.getD_eq_getElem?_getD, List.getElem?_append_right (by simp; omega)]
-        simp only [List.length_map]
-        rw [show t0.length + prefixSum (rest.map List.length) k + t - t0.length =
-          prefixSum (rest.map List.length) k + t by omega, ← List.getD_eq_getElem?_getD, this,
-          show j0 + nc0 + prefixSum ncs k = j0 + (nc0 + prefixSum ncs k) by omega]
+    intro ncs j0 k t hok hk ht
+    have h0 : TmplOK t0 ns (ncs.getD 0 0) := by simpa using hok 0 (by simp)
+    have hw := tmplWidth_of_ok t0 ns (ncs.getD 0 0) h0 hns
+    rw [mergeTemplatesFrom]
+    simp only [hw]
+    cases k with
+    | zero =>
+      have ht' : t < t0.length := by simpa using ht
+      rw [List.getD_eq_getElem?_getD, List.getD_eq_getElem?_getD]
+      simp only [List.map_cons, prefixSum_zero, Nat.zero_add, List.getD_cons_zero, Nat.add_zero]
+      rw [List.getElem?_append_left (by simpa using ht'), List.getElem?_map,
+        List.getElem?_eq_getElem ht']
+      simp [ht']
+    | succ k =>
+      have hk' : k < rest.length := by simpa using hk
+      have ht' : t < (rest.getD k []).length := by simpa using ht
+      have hok' : ∀ k, k < rest.length → TmplOK (rest.getD k []) ns (ncs.tail.getD k 0) := by
+        intro k hk
+        have := hok (k + 1) (by simp; omega)
+        rw [getD_succ_tail] at this
+        simpa using this
+      have := ih ncs.tail (j0 + ncs.getD 0 0) k t hok' hk' ht'
+      simp only [List.map_cons, prefixSum_cons_succ, List.getD_cons_succ]
+      rw [List.getD_eq_getElem?_getD, List.getElem?_append_right (by simp; omega)]
+      simp only [List.length_map]
+      rw [show t0.length + prefixSum (rest.map List.length) k + t - t0.length =
+        prefixSum (rest.map List.length) k + t by omega, ← List.getD_eq_getElem?_getD, this,
+        prefixSum_succ_tail, getD_succ_tail,
+        show j0 + ncs.getD 0 0 + prefixSum ncs.tail k = j0 + (ncs.getD 0 0 + prefixSum ncs.tail k) by omega]
 
--- `hc` is not needed for the proof (out-of-range `getD` yields `[]`/`0`)
-set_option linter.unusedVariables false in
+/-- every merged template has as many rows as the input templates -/
+theorem mergeTemplatesFrom_rows (total ns : Nat) (ts : List (List (List (List α)))) :
+    ∀ (j0 : Nat), (∀ t ∈ ts, ∀ tm ∈ t, tm.length = ns) →
+      ∀ x ∈ mergeTemplatesFrom total j0 ts, x.length = ns := by
+  induction ts with
+  | nil => intro j0 _ x hx; simp [mergeTemplatesFrom] at hx
+  | cons t0 rest ih =>
+    intro j0 h x hx
+    rw [mergeTemplatesFrom, List.mem_append] at hx
+    rcases hx with hx | hx
+    · obtain ⟨tm, htm, rfl⟩ := List.mem_map.1 hx
+      rw [List.length_map]
+      exact h t0 (by simp) tm htm
+    · exact ih _ (fun t ht => h t (List.mem_cons_of_mem _ ht)) x hx
+
+omit [Zero α] in
+theorem getD_nil_of_length_le {β : Type} (l : List (List β)) (s : Nat) (h : l.length ≤ s) :
+    l.getD s [] = [] := by
+  rw [List.getD_eq_getElem?_getD, List.getElem?_eq_none h]; rfl
+
 theorem templates_block (ts : List (List (List (List α)))) (ns : Nat) (ncs : List Nat)
-    (hlen : ncs.length = ts.length)
     (hok : ∀ k (hk : k < ts.length), TmplOK (ts[k]'hk) ns (ncs.getD k 0))
-    (k t s c : Nat) (hk : k < ts.length) (ht : t < (ts[k]'hk).length) (hs : s < ns)
-    (hc : c < ncs.sum) :
+    (k t s c : Nat) (hk : k < ts.length) (ht : t < (ts[k]'hk).length) :
     get3 (mergeTemplates ts) (prefixSum (ts.map List.length) k + t) s c =
       if prefixSum ncs k ≤ c ∧ c < prefixSum ncs k + ncs.getD k 0
       then get3 (ts[k]'hk) t s (c - prefixSum ncs k) else 0 := by
@@ -397,33 +422,59 @@ theorem templates_block (ts : List (List (List (List α)))) (ns : Nat) (ncs : Li
     have := hok k hk
     simpa [List.getD_eq_getElem?_getD, hk] using this
   rw [hget] at ht ⊢
-  have hmain := mergeTemplatesFrom_getD ((ts.map tmplWidth).sum) ns (by omega) ts ncs 0 k t hlen hok' hk ht
-  obtain ⟨_, hall⟩ := hok' k hk
-  unfold get3 mergeTemplates
-  generalize ts.getD k [] = tk at ht hall hmain ⊢
-  have htm : tk.getD t [] ∈ tk := by
-    rw [List.getD_eq_getElem?_getD, List.getElem?_eq_getElem ht]; simp
-  obtain ⟨hl, hrow⟩ := hall _ htm
-  generalize tk.getD t [] = tm at hl hrow hmain ⊢
-  have hs' : s < tm.length := by omega
-  have hrw : tm.getD s [] ∈ tm := by
-    rw [List.getD_eq_getElem?_getD, List.getElem?_eq_getElem hs']; simp
-  have hrl := hrow _ hrw
-  rw [hmain, List.getD_eq_getElem?_getD (l := tm.map _), List.getElem?_map,
-    List.getElem?_eq_getElem hs']
-  simp only [Option.map_some, Option.getD_some, Nat.zero_add]
-  rw [pad_getD]
-  have : tm[s] = tm.getD s [] := by simp [List.getD_eq_getElem?_getD, hs']
-  rw [this, hrl]
+  by_cases hs : s < ns
+  · have hmain := mergeTemplatesFrom_getD ((ts.map tmplWidth).sum) ns (by omega) ts ncs 0 k t hok' hk ht
+    obtain ⟨_, hall⟩ := hok' k hk
+    unfold get3 mergeTemplates
+    generalize ts.getD k [] = tk at ht hall hmain ⊢
+    have htm : tk.getD t [] ∈ tk := by
+      rw [List.getD_eq_getElem?_getD, List.getElem?_eq_getElem ht]; simp
+    obtain ⟨hl, hrow⟩ := hall _ htm
+    generalize tk.getD t [] = tm at hl hrow hmain ⊢
+    have hs' : s < tm.length := by omega
+    have hrw : tm.getD s [] ∈ tm := by
+      rw [List.getD_eq_getElem?_getD, List.getElem?_eq_getElem hs']; simp
+    have hrl := hrow _ hrw
+    rw [hmain, List.getD_eq_getElem?_getD (l := tm.map _), List.getElem?_map,
+      List.getElem?_eq_getElem hs']
+    simp only [Option.map_some, Option.getD_some, Nat.zero_add]
+    rw [pad_getD]
+    have : tm[s] = tm.getD s [] := by simp [List.getD_eq_getElem?_getD, hs']
+    rw [this, hrl]
+  · -- no such sample row: both sides are zero
+    have hrows : ∀ t ∈ ts, ∀ tm ∈ t, tm.length = ns := by
+      intro t ht tm htm
+      obtain ⟨k, hk, rfl⟩ := List.getElem_of_mem ht
+      exact ((hok k hk).2 tm htm).1
+    have hL : get3 (mergeTemplates ts) (prefixSum (ts.map List.length) k + t) s c = 0 := by
+      unfold get3 mergeTemplates
+      have : ((mergeTemplatesFrom ((ts.map tmplWidth).sum) 0 ts).getD
+          (prefixSum (ts.map List.length) k + t) []).getD s [] = [] := by
+        apply getD_nil_of_length_le
+        rw [List.getD_eq_getElem?_getD]
+        cases hx : (mergeTemplatesFrom ((ts.map tmplWidth).sum) 0 ts)[prefixSum (ts.map List.length) k + t]? with
+        | none => simp
+        | some x =>
+          have := mergeTemplatesFrom_rows _ ns ts 0 hrows x (List.mem_of_getElem? hx)
+          simp only [Option.getD_some]; omega
+      rw [this]; rfl
+    have hR : get3 (ts.getD k []) t s (c - prefixSum ncs k) = 0 := by
+      unfold get3
+      have htm : (ts.getD k []).getD t [] ∈ ts.getD k [] := by
+        rw [List.getD_eq_getElem?_getD (l := ts.getD k []), List.getElem?_eq_getElem ht]; simp
+      have hl := ((hok' k hk).2 _ htm).1
+      rw [getD_nil_of_length_le _ s (by omega)]; rfl
+    rw [hL, hR]; split <;> rfl
 
 /-! tables -/
 
 theorem tables_shifted (tables : List (List (List Nat))) (offsets : List Nat)
-    (hlen : offsets.length = tables.length) (k r c : Nat) (hk : k < tables.length)
+    (hlen : offsets.length = tables.length) (k r c : Nat)
     (hr : r < (tables.getD k []).length) :
     ((shiftTables tables offsets).getD (prefixSum (tables.map List.length) k + r) []).getD c 0 =
       if c < ((tables.getD k []).getD r []).length
       then ((tables.getD k []).getD r []).getD c 0 + offsets.getD k 0 else 0 := by
+  have hk : k < tables.length := lt_length_of_lt_getD_length tables k r hr
   have := zipFlat_get (fun (row : List Nat) o => row.map (· + o)) tables offsets k r hlen hk hr
   have h2 : (shiftTables tables offsets).getD (prefixSum (tables.map List.length) k + r) [] =
       (((tables.getD k [])[r]?).map fun x => x.map (· + offsets.getD k 0)).getD [] := by
@@ -472,14 +523,12 @@ theorem blockDiagFrom_getD (total : Nat) (ms : List (List (List α))) :
         show j0 + m.length + prefixSum (rest.map List.length) k =
           j0 + (m.length + prefixSum (rest.map List.length) k) by omega]
 
--- `hj` is not needed for the proof (out-of-range `getD` yields `[]`/`0`)
-set_option linter.unusedVariables false in
 theorem blockDiag_entries (ms : List (List (List α))) (hsq : ∀ m ∈ ms, ∀ row ∈ m, row.length = m.length)
-    (k i j : Nat) (hk : k < ms.length) (hi : i < (ms.getD k []).length)
-    (hj : j < (ms.map List.length).sum) :
+    (k i j : Nat) (hi : i < (ms.getD k []).length) :
     get2 (blockDiag ms) (prefixSum (ms.map List.length) k + i) j =
       if prefixSum (ms.map List.length) k ≤ j ∧ j < prefixSum (ms.map List.length) k + (ms.getD k []).length
       then get2 (ms.getD k []) i (j - prefixSum (ms.map List.length) k) else 0 := by
+  have hk : k < ms.length := lt_length_of_lt_getD_length ms k i hi
   have hmain := blockDiagFrom_getD ((ms.map List.length).sum) ms 0 k i hk hi
   have hm : ms.getD k [] ∈ ms := by
     rw [List.getD_eq_getElem?_getD, List.getElem?_eq_getElem hk]; simp
